@@ -121,12 +121,13 @@ MatchersFor(ms, name) == SelectSeq(ms, LAMBDA m : m.label = name)
 \* a label is selected by a drop/keep list when it is named plainly, or has value matchers and all of them hold
 Selected(st, p) == LET ms == MatchersFor(Fld(st, "matchers", <<>>), p[1]) IN
                    (p[1] \in PairsOf(st.labels) \/ ms # <<>>) /\ \A k \in DOMAIN ms : ValueMatch(ms[k].op, ms[k].val, ms[k].re, p[2])
-\* delete every SGR sequence ESC [ (digits and ;)* m and nothing else
+\* delete every colour (SGR) sequence CSI (digits and ;)* m and nothing else; CSI is ESC [ or the 8-bit U+009B (C2 9B in UTF-8)
+IsCsi(s, i) == i + 1 <= Len(s) /\ ((s[i] = 27 /\ s[i + 1] = 91) \/ (s[i] = 194 /\ s[i + 1] = 155))
 RECURSIVE SgrEnd(_, _)
 SgrEnd(s, i) == IF i <= Len(s) /\ (IsDig(s[i]) \/ s[i] = 59) THEN SgrEnd(s, i + 1) ELSE i
 RECURSIVE StripSGR(_, _)
 StripSGR(s, i) == IF i > Len(s) THEN <<>>
-                  ELSE IF s[i] = 27 /\ i + 1 <= Len(s) /\ s[i + 1] = 91 /\ SgrEnd(s, i + 2) <= Len(s) /\ s[SgrEnd(s, i + 2)] = 109
+                  ELSE IF IsCsi(s, i) /\ SgrEnd(s, i + 2) <= Len(s) /\ s[SgrEnd(s, i + 2)] = 109
                     THEN StripSGR(s, SgrEnd(s, i + 2) + 1)
                   ELSE <<s[i]>> \o StripSGR(s, i + 1)
 
